@@ -293,7 +293,7 @@ def run_obligation(res, spec, findings, check_c04_only=False):
         m = viol_model or ex.model()
         cdoc = doc.model_str(m) if isinstance(doc, SymStr) else doc
         with shims.real_code():
-            ctag, cval = run_with_alarm(lambda: read_nt(cdoc), 0.4)
+            ctag, cval = run_with_alarm(lambda: read_nt(cdoc), 1.0)
         sym_obs = _observed(tag, val, m)
         con_obs = _observed(ctag, cval, None)
         if sym_obs != con_obs:
